@@ -1,5 +1,6 @@
 import Ledger.Proofs.SchedUnique
 import Ledger.Proofs.SchedHandles
+import Ledger.Proofs.SchedWitnesses
 
 /-!
 # C13 (schedule part) — idempotency keys under concurrency
@@ -55,18 +56,9 @@ theorem failed_attempt_rechecks_key (l ik hash : Nat) (hik : ik ≠ 0) (fin : Re
 
 /-! ## the counterexample on the code before /repo 0fbf80e -/
 
-/-- two requests with the same key and the same input: send 10 from a pair holding exactly 10 -/
-def cxReq : Send := { l := 1, sync := false, src := 1, dst := 2, amt := 10, allow := .bounded 0, ik := 1, hash := 7 }
 
-def cxProg (recheck : Bool) : Prog := forgeLogG recheck topTx cxReq.l cxReq.ik cxReq.hash (sendBody cxReq) .done
 
-def cxWorld (recheck : Bool) : World :=
-  { vols := fun k => if k = 1 then { com := some 10 } else {}
-    sess := fun s => if s = 1 ∨ s = 2 then { prog := cxProg recheck } else {} }
 
-/-- A: BEGIN, key lookup (miss) · B: BEGIN, key lookup (miss) · A: GetBalances (locks, reads 10),
-    UpdateVolumes, InsertTransaction, InsertLog, COMMIT · B: GetBalances (reads 0) → refused → ROLLBACK [→ lookup] -/
-def cxSchedule : Schedule := [1, 1, 2, 2, 1, 1, 1, 1, 1, 2, 2, 2]
 
 /-- Before the repair the loser answers `insufficient-funds` although the key is committed with a
     success: `ik_no_contradicting_business_error` was false. -/
